@@ -126,6 +126,15 @@ def curved(chk, rng, n, nang):
             for k in range(len(ang)):
                 chk.case([nm, aa, bb, float(ang[k])], aa != bb or not (0 <= ang[k] < 2 * math.pi))
             chk.count("cls:" + nm)
+            # integer-valued angles in other input forms (integer array, list of ints) mean the same directions as the float array
+            ia = np.array([-7, 0, 1, 2, 9])
+            ref = np.asarray(sh.distance_to_surface(ia.astype(float)), float)
+            for form, arg in (("integer array", ia.copy()), ("list of ints", [int(x) for x in ia]), ("list of floats", [float(x) for x in ia])):
+                st2, d2 = C.excname(lambda: np.asarray(sh.distance_to_surface(arg), float).ravel())
+                if st2 != "ok" or d2.shape != ref.shape or not np.allclose(d2, ref, rtol=1e-12, atol=0):
+                    chk.violation(nm + ".distance_to_surface-input-form", dict(a=aa, b=bb, form=form, outcome=st2, got=None if st2 != "ok" else d2.tolist(),
+                                                                              expected=ref.tolist()))
+                    break
 
 
 def extra_coverage(chk):
